@@ -31,9 +31,9 @@ PROPS = {
     "C13": dict(module="MoqModel.Props.C13", stages=["corr"], oracles=["C13"], trust=[]),
     "C14": dict(module="MoqModel.Props.C14", stages=["corr"], oracles=["C14"],
                 trust=["go/types enumerates methods in a canonical order"]),
-    "C15": dict(module="MoqModel.Props.C15", stages=["cli"], oracles=["C15"],
+    "C15": dict(module="MoqModel.Props.C15", stages=["cli", "corr"], oracles=["C15"],
                 trust=["packages.Load returns exactly the files present"]),
-    "C16": dict(module="MoqModel.Props.C16", stages=["corr"], oracles=["C16"],
+    "C16": dict(module="MoqModel.Props.C16", stages=["corr", "cli"], oracles=["C16"],
                 trust=["go/format idempotence and comment preservation, goimports leaves an import-exact file alone (theorem hypotheses, checked dynamically)"]),
     "C17": dict(module="MoqModel.Props.C17", stages=["cli", "corr"], oracles=["C17"],
                 trust=["a write that fails after a successful open is not modelled"]),
@@ -41,7 +41,7 @@ PROPS = {
                 trust=["go list writes only to GOCACHE when go.mod/go.sum are complete"]),
     "C19": dict(module="MoqModel.Props.C19", stages=["corr", "cli"], oracles=["C19"],
                 trust=["packages.Load / go list terminate (watchdog)"]),
-    "C20": dict(module="MoqModel.Props.C20", stages=["corr"], oracles=["C20"], trust=[]),
+    "C20": dict(module="MoqModel.Props.C20", stages=["corr", "cli"], oracles=["C20"], trust=[]),
 }
 
 
